@@ -6,6 +6,7 @@ import (
 	"math/rand"
 	"os"
 	"sort"
+	"strconv"
 	"strings"
 	"testing"
 	"testing/synctest"
@@ -202,6 +203,7 @@ type WorkerOut struct {
 	Infra      []string                   `json:"infra"`
 	WallSec    float64                    `json:"wall_sec"`
 	SelfCheck  [2]int                     `json:"self_check"` // re-executed, mismatches
+	Divergent  []string                   `json:"divergent,omitempty"`
 	Meta       map[string]interface{}     `json:"meta"`
 }
 
@@ -231,6 +233,15 @@ func chooserFor(p *Prop, enum [][]uint32, base uint64, idx uint64) (*Chooser, ui
 	return ch, seed
 }
 
+// selfCheckEvery: every n-th explored run is executed a second time from its recorded choices (VERIF_SELFCHECK_EVERY
+// overrides it for determinism hunts).
+var selfCheckEvery = func() uint64 {
+	if v, err := strconv.Atoi(os.Getenv("VERIF_SELFCHECK_EVERY")); err == nil && v > 0 {
+		return uint64(v)
+	}
+	return 64
+}()
+
 // RunWorker executes a worker spec (called from TestWorker).
 func RunWorker(t *testing.T, spec *WorkerSpec) *WorkerOut {
 	p := Props[spec.Prop]
@@ -252,7 +263,11 @@ func RunWorker(t *testing.T, spec *WorkerSpec) *WorkerOut {
 		if devVerbose {
 			fmt.Printf("run %d seed %d at %v\n", idx, seed, time.Since(start))
 		}
-		res := ExecRun(t, p, ch, keepSample, spec.Tier)
+		traceDir := os.Getenv("VERIF_TRACE_DIR")
+		res := ExecRun(t, p, ch, keepSample || traceDir != "", spec.Tier)
+		if traceDir != "" {
+			_ = os.WriteFile(fmt.Sprintf("%s/%d.%x.%d.trace", traceDir, idx, res.Digest, os.Getpid()), []byte(res.Config+"\n"+strings.Join(res.Trace, "\n")), 0o644)
+		}
 		out.Runs++
 		if idx < uint64(len(enum)) {
 			out.Enumerated++
@@ -295,14 +310,14 @@ func RunWorker(t *testing.T, spec *WorkerSpec) *WorkerOut {
 			out.Samples = append(out.Samples, Sample{Index: idx, Seed: seed, Config: res.Config, Steps: res.Steps, Trace: tr})
 		}
 		// in-worker determinism self check on a sample of runs
-		if spec.Mode == "explore" && idx%64 == uint64(0) {
+		if spec.Mode == "explore" && idx%selfCheckEvery == uint64(0) {
 			ch2 := NewReplayChooser(ch.Rec)
 			res2 := ExecRun(t, p, ch2, false, spec.Tier)
 			out.SelfCheck[0]++
 			if res2.Digest != res.Digest {
 				out.SelfCheck[1]++
-				if len(out.Infra) < 5 {
-					out.Infra = append(out.Infra, fmt.Sprintf("run %d: replay of recorded choices gave another digest (%x vs %x)", idx, res.Digest, res2.Digest))
+				if len(out.Divergent) < 20 {
+					out.Divergent = append(out.Divergent, fmt.Sprintf("run %d: replay of recorded choices gave another digest (%x vs %x)", idx, res.Digest, res2.Digest))
 				}
 			}
 		}
